@@ -366,6 +366,15 @@ const TEMPLATES: &[Template] = &[
     t("loop-constant-else-break", "n := mut 0; o := mut 0; while *o < 2 { o += 1; loop { n += 1; if tb(1, *n % 2 == 0) { break }; if {0} { t(2, *n) } else { break }; if *n > 6 { break } } }; return (*n, *o, *log)", &["bool"]),
     t("while-constant-cond-with-continue", "n := mut 0; while {0} { n += 1; if tb(1, *n < 3) { continue }; t(2, *n); break }; return (*n, *log)", &["bool"]),
     t("loop-constant-first-exit", "n := mut 0; o := mut 0; while *o < 2 { o += 1; loop { if {0} { n += 10; break }; n += 1; if tb(1, *n >= 2) { break } } }; return (*n, *o, *log)", &["bool"]),
+    // a repeat written with its operands in place: the element type of the (possibly empty)
+    // result is observable through type arms, the identity of $+ / $* and an exhausted iterator
+    t("type-of-literal-repeat-float", "a := [{0}; {1}]; r := match a { q: [int] => 1, q: [float] => 2, => 3, }; return (r, *log)", &["float", "len"]),
+    t("type-of-literal-repeat-int", "a := [{0}; {1}]; r := match a { q: [float] => 1, q: [int] => 2, => 3, }; return (r, *log)", &["int", "len"]),
+    t("type-of-literal-repeat-str", "a := [{0}; {1}]; r := match a { q: [int] => 1, q: [string] => 2, => 3, }; return (r, a~ $+, *log)", &["str", "len"]),
+    t("sum-of-literal-repeat", "return ([{0}; {1}]~ $+, [{0}; {1}]~ $*, *log)", &["float", "len"]),
+    t("exhausted-iterator-of-literal-repeat", "it := [{0}; {1}]~; a := it(); b := it(); c := it(); return (a, b, c, *log)", &["float", "len"]),
+    t("type-of-literal-array", "a := [{0}, {1}]; r := match a { q: [int] => 1, q: [float] => 2, q: [int|float] => 3, => 4, }; return (r, *log)", &["int", "float"]),
+    t("type-of-literal-slice-empty", "a := [{0}, {1}][2:]; r := match a { q: [float] => 1, q: [int] => 2, => 3, }; return (r, *log)", &["int", "int"]),
     t("for-over-constants", "acc := mut 0; for e in [{0}, {1}]~ { acc += t(1, e) }; return (*acc, *log)", &["int", "int"]),
     t("reduce-constants", "r := [{0}, {1}]~ $ 0 (acc: int, e: int) -> int { return acc OP e }; return (r, *log)", &["int", "int"]),
     t("nested-arith", "return (({0} OP {1}) OP ({1} OP {0}), *log)", &["int", "int"]),
